@@ -112,6 +112,23 @@ func DoomedScenarios(goAwayInReply bool) []Scenario {
 	return out
 }
 
+// KeepAliveScenarios (drivers with Heartbeats, ping-pong): a heartbeat is registered on a connection
+// (unanswered, or timed out) while one thread ends the request stream on a connection that must not
+// be reused and another one leases; the heartbeat's answer races a local reset; the keep-alive's
+// closing timeout (failCountToClose consecutive timeouts; 2 in the keep-alive units) races a lease
+// of the idle connection it closes. Heartbeats are SENT in the sequential prefix only.
+func KeepAliveScenarios() []Scenario {
+	return []Scenario{
+		{"heartbeat unanswered: lease vs local reset of the only stream (max 2)", Cfg{2, 0}, []string{"new", "hb:0"}, [][]string{{"lreset:0"}, {"new"}}},
+		{"heartbeat timed out earlier: lease vs local reset of the only stream (max 2)", Cfg{2, 0}, []string{"new", "hb:0", "hbto:0"}, [][]string{{"lreset:0"}, {"new"}}},
+		{"heartbeat unanswered: lease vs completion on a connection that announced go-away (max 2)", Cfg{2, 0}, []string{"new", "goaway:0", "hb:0"}, [][]string{{"reply:0"}, {"new"}}},
+		{"heartbeat answer vs local reset (max 1)", Cfg{1, 0}, []string{"new", "hb:0"}, [][]string{{"hback:0"}, {"lreset:0"}}},
+		{"heartbeat timeout vs local reset vs lease (max 2)", Cfg{2, 0}, []string{"new", "hb:0"}, [][]string{{"hbto:0"}, {"lreset:0"}, {"new"}}},
+		{"closing heartbeat timeout vs lease of the idle connection (max 1)", Cfg{1, 0}, []string{"new", "reply:0", "hb:0", "hbto:0", "hb:0"}, [][]string{{"hbto:1"}, {"new"}}},
+		{"closing heartbeat timeout vs completion (max 1)", Cfg{1, 0}, []string{"new", "hb:0", "hbto:0", "hb:0"}, [][]string{{"hbto:1"}, {"reply:0"}}},
+	}
+}
+
 // newStreamSched is NewStream + request under the scheduler: the connection is the one the pool
 // recorded in the request context; the stream is registered in the model as soon as NewStream returned.
 func (w *world) newStreamSched() string {
@@ -165,8 +182,8 @@ func (w *world) newStreamSched() string {
 	// the model sees afterwards is a reuse of a doomed connection in every interleaving.
 	if s.c.doomed && !w.shutdown && (w.d.Kind() == PingPong || goAwayKnown[s.c]) {
 		for _, t := range s.c.taints {
-			w.lease = append(w.lease, finding{"pool=" + pn + " I2 connection leased again after " + t,
-				fmt.Sprintf("NewStream put a stream on connection %d, which was told to close (%s) while it carried a stream: it had to be closed, not handed out again", s.c.idx, t)})
+			w.lease = append(w.lease, finding{"pool=" + pn + " I2 connection leased again after " + t + w.hbq(s.c),
+				fmt.Sprintf("NewStream put a stream on connection %d, which was told to close (%s) while it carried a stream: it had to be closed, not handed out again%s", s.c.idx, t, w.hbNote(s.c))})
 		}
 	}
 	// (a connection found closed right after the lease is judged below only if the POOL closed it)
@@ -188,7 +205,7 @@ func (w *world) newStreamSched() string {
 	if len(s.req) == 0 {
 		// the connection was closed under the lease: the stream layer resets the stream itself
 		s.ended, s.endCause = true, "send-failed"
-		if !s.c.envClosed && !w.envMayClose {
+		if !s.c.envClosed && !s.c.kaMayClose && !w.envMayClose {
 			// neither the peer nor a concurrent pool Close/Shutdown closed it: the pool handed out a
 			// connection it was itself about to close - the request fails although the upstream is healthy
 			w.lease = append(w.lease, finding{"pool=" + pn + " I2 request placed on a connection the pool itself closes (request fails although the upstream is healthy)",
@@ -212,6 +229,15 @@ func schedBody(d Driver, sc Scenario, obs *schedObs) {
 	w.sched = true
 	w.syncConns()
 	for _, ev := range sc.Prefix {
+		if strings.HasPrefix(ev, "hbto:") {
+			// the scheduler may have let the heartbeat's virtual timer fire while the heartbeat was being
+			// sent (a deviation within the prefix): then it has timed out already
+			var k int
+			fmt.Sscanf(ev[5:], "%d", &k)
+			if k < len(w.hbs) && w.hbs[k].state != hbOut {
+				continue
+			}
+		}
 		w.apply(ev)
 		vrt.Quiesce()
 		w.syncConns()
@@ -247,6 +273,12 @@ func schedBody(d Driver, sc Scenario, obs *schedObs) {
 					}
 				case "rclose", "lclose", "goaway":
 					if arg >= len(w.conns) || !w.conns[arg].open() {
+						outs[i] = append(outs[i], name+"->skipped")
+						continue
+					}
+				case "hback", "hbto":
+					// (an answer racing the timeout: whichever comes second finds the heartbeat settled)
+					if arg >= len(w.hbs) || !w.hbs[arg].c.open() || w.hbs[arg].state == hbDone || (name == "hbto" && w.hbs[arg].state != hbOut) {
 						outs[i] = append(outs[i], name+"->skipped")
 						continue
 					}
@@ -408,6 +440,13 @@ func MainSchedules(t *testing.T, d Driver, scenarios []Scenario, quickBound, tho
 		}
 	}
 	p.End(complete,
-		fmt.Sprintf("pool %s: %d scenarios (2-3 threads of NewStream / reply / remote close after a sequential prefix), every interleaving with <= %d preemptions (%d scenarios with more than %d threads: <= %d)", d.Name(), ran, bound, reduced, quickMaxThreads, bound-1),
+		fmt.Sprintf("pool %s: %d scenarios (2-3 threads of %s after a sequential prefix), every interleaving with <= %d preemptions (%d scenarios with more than %d threads: <= %d)", d.Name(), ran, schedAlphabet(d), bound, reduced, quickMaxThreads, bound-1),
 		"stateless DFS over the scheduling choices of the instrumented pool, stream and resource code; one evaluation = one complete execution, checked at exact quiescence with the BFS state oracle (I1-I3, I5; violations already present after the prefix are not reported) and the capacity probe (I4) after draining; distinct = distinct (scenario, canonical end state); outcome = per-thread event outcomes")
+}
+
+func schedAlphabet(d Driver) string {
+	if _, ok := d.(Heartbeats); ok {
+		return "NewStream / reply / local reset / heartbeat answer / heartbeat timeout, with a heartbeat unanswered or timed out on the connection"
+	}
+	return "NewStream / reply / remote close"
 }
